@@ -449,7 +449,7 @@ func c01(args []string) {
 		if i%40 == 0 {
 			nfin := 0
 			for p := range snap {
-				if !strings.Contains(p, "_scipipe_tmp") && !strings.HasSuffix(p, ".audit.json") {
+				if !strings.Contains(p, "_scipipe_tmp") && !mon.IsAuditFile(p) {
 					nfin++
 				}
 			}
@@ -800,7 +800,7 @@ func c01backgroundJobs(c *chk.Ctx) {
 			ps = append(ps, mon.Problem{Sig: "output-not-at-declared-path", Msg: fmt.Sprintf("the workflow succeeded and %d of the 2 outputs of the two-tool task are at their final paths", nfinal)})
 		}
 		for _, l := range snap.Files() {
-			if !strings.Contains(l, "_scipipe_tmp") && !strings.HasSuffix(l, ".audit.json") && l != "bg.txt" && !strings.HasPrefix(filepath.Base(l), "a.") && !strings.HasSuffix(l, ".out") {
+			if !strings.Contains(l, "_scipipe_tmp") && !mon.IsAuditFile(l) && l != "bg.txt" && !strings.HasPrefix(filepath.Base(l), "a.") && !strings.HasSuffix(l, ".out") {
 				ps = append(ps, mon.Problem{Sig: "unfinished-work-outside-tempdir", Msg: "unexpected file " + l})
 			}
 		}
